@@ -75,6 +75,7 @@ struct munge_cred {
     int                 iv_len;         /* length of iv data                 */
     unsigned char       iv[MAX_IV];     /* initialization vector             */
     unsigned char      *outer_zip_ref;  /* ref to zip_t in outer cred memory */
+    int                 replay_inserted;/* true if this cred added replay state */
 };
 
 typedef struct munge_cred * munge_cred_t;
